@@ -19,19 +19,21 @@ var verifDir = "/verif"
 
 // PropConfig: what a property's check consists of (/verif/props.json).
 type PropConfig struct {
-	ID         string   `json:"id"`
-	Functions  []string `json:"functions"`   // extra functions (beyond those whose contract carries a clause tagged with the id); regexps on funcName
-	Sweep      []string `json:"sweep"`       // functions swept for panic-freedom (regexps)
-	SweepRoots []string `json:"sweep_roots"` // sweep everything reachable from these (regexps)
-	Lock       []string `json:"lock"`        // functions checked for lock discipline (regexps)
-	Undecided  []string `json:"undecided"`   // clauses of the property this check does not decide (text for evidence)
-	Bounded    []string `json:"bounded"`
-	Assumed    []string `json:"assumed"`
+	ID          string   `json:"id"`
+	Functions   []string `json:"functions"`   // extra functions (beyond those whose contract carries a clause tagged with the id); regexps on funcName
+	Sweep       []string `json:"sweep"`       // functions swept for panic-freedom (regexps)
+	SweepRoots  []string `json:"sweep_roots"` // sweep everything reachable from these (regexps)
+	Lock        []string `json:"lock"`
+	LockExclude []string `json:"lock_exclude"`
+	Undecided   []string `json:"undecided"` // clauses of the property this check does not decide (text for evidence)
+	Bounded     []string `json:"bounded"`
+	Assumed     []string `json:"assumed"`
 }
 
 type KnownFinding struct {
 	Property   string `json:"property"`
 	Obligation string `json:"obligation"`
+	Pattern    string `json:"pattern,omitempty"` // regexp over obligation names (instead of one exact name)
 	What       string `json:"what"`
 	Defect     string `json:"defect,omitempty"`
 	Replay     string `json:"replay,omitempty"` // name of a replay test in /verif/replays proving the finding on the real code
@@ -215,7 +217,7 @@ func runCheck(args []string) int {
 		if matchAny(cfg.Sweep, n) || sweepSet[n] {
 			get(fn).sweep = true
 		}
-		if matchAny(cfg.Lock, n) {
+		if matchAny(cfg.Lock, n) && !matchAny(cfg.LockExclude, n) {
 			get(fn).lock = true
 		}
 	}
@@ -279,7 +281,15 @@ func runCheck(args []string) int {
 	for _, o := range sel {
 		seen[o.Name] = true
 		solverMs += o.Millis
-		if kf, ok := knownBy[o.Name]; ok {
+		kf, ok := knownBy[o.Name]
+		if !ok {
+			for i := range known {
+				if known[i].Property == *prop && known[i].Pattern != "" && matchAny([]string{known[i].Pattern}, o.Name) {
+					kf, ok = &known[i], true
+				}
+			}
+		}
+		if ok {
 			if o.Status == "unsat" {
 				fmt.Printf("note: known finding %s no longer fails (obligation discharged); the entry is stale\n", o.Name)
 				claimed++
@@ -333,6 +343,15 @@ func runCheck(args []string) int {
 		nb := Baseline{Property: *prop, Unclaimed: map[string]string{}}
 		for _, o := range sel {
 			if _, ok := knownBy[o.Name]; ok {
+				continue
+			}
+			isKnown := false
+			for i := range known {
+				if known[i].Property == *prop && known[i].Pattern != "" && matchAny([]string{known[i].Pattern}, o.Name) {
+					isKnown = true
+				}
+			}
+			if isKnown {
 				continue
 			}
 			if o.Status == "unsat" {
